@@ -336,7 +336,7 @@ SCHEMES = [[0, -1, 20, -100], [-10, -1, 10, -100], [-10, -1, 10, -100], [-5, -2,
 def gen(tier, rng):
     quick = tier != "thorough"
     plan = []
-    n_big, n_small = (36, 300) if quick else (600, 6000)
+    n_big, n_small = (12, 90) if quick else (300, 3000)
     for _ in range(n_big):
         plan.append((0, EXAMPLE_OV))
     for _ in range(n_small):
